@@ -695,6 +695,10 @@ impl<R: io::Read + io::Seek> IndexedReader<R> {
                 (bases_left, bases_left)
             };
 
+            #[cfg(feature = "verif-hooks")]
+            if bytes_to_keep == 0 {
+                crate::verif::hit("fasta_idx.zero_base_read");
+            }
             buf.extend_from_slice(&src[..bytes_to_keep as usize]);
             (bytes_to_read, bytes_to_keep)
         };
